@@ -70,7 +70,8 @@ def opreg(pos):
 
 def oplist(pos):
     def subr(i, pos=pos):
-        o = i.operands[pos]
+        # operand pos is the mask of the register list i.reglist
+        o = i.reglist
         L = [(Token.Literal, "{")]
         L += TokenListJoin(", ", [(Token.Register, "{0}".format(x)) for x in o])
         L += [(Token.Literal, "}")]
